@@ -9,6 +9,7 @@ import (
 	"strings"
 	"sync"
 	"sync/atomic"
+	"time"
 
 	"layeh.com/radius"
 	"layeh.com/radius/rfc2865"
@@ -31,10 +32,34 @@ type acctRec struct {
 }
 
 type radiusPeer struct {
-	port int // authentication port; accounting = port+1
-	mu   sync.Mutex
-	recs map[string][]acctRec       // NAS-Identifier -> records in arrival order
-	seen map[string]map[string]bool // per NAS retransmission filter: remote addr + identifier + authenticator
+	port   int // authentication port; accounting = port+1
+	mu     sync.Mutex
+	recs   map[string][]acctRec       // NAS-Identifier -> records in arrival order
+	seen   map[string]map[string]bool // per NAS retransmission filter: remote addr + identifier + authenticator
+	stalls map[string]*stall          // per NAS: hold the answer to the next Accounting-Stop
+}
+
+// stall makes the peer slow for one Accounting-Stop: the request is recorded, hit is set, and the
+// answer is written only once release is set. Atomics only (the peer runs outside the bubbles).
+type stall struct {
+	hit, release atomic.Bool
+}
+
+func (p *radiusPeer) armStall(nas string) *stall {
+	st := &stall{}
+	p.mu.Lock()
+	if p.stalls == nil {
+		p.stalls = map[string]*stall{}
+	}
+	p.stalls[nas] = st
+	p.mu.Unlock()
+	return st
+}
+
+func (p *radiusPeer) disarmStall(nas string) {
+	p.mu.Lock()
+	delete(p.stalls, nas)
+	p.mu.Unlock()
 }
 
 var (
@@ -104,7 +129,18 @@ func (p *radiusPeer) handleAcct(w radius.ResponseWriter, r *radius.Request) {
 		p.seen[nas][key] = true
 		p.recs[nas] = append(p.recs[nas], acctRec{Typ: typ, SID: rfc2866.AcctSessionID_GetString(r.Packet), MAC: mac})
 	}
+	var st *stall
+	if typ == "stop" {
+		st = p.stalls[nas]
+		delete(p.stalls, nas)
+	}
 	p.mu.Unlock()
+	if st != nil {
+		st.hit.Store(true)
+		for i := 0; i < 200000 && !st.release.Load(); i++ { // at most ~20 s
+			time.Sleep(100 * time.Microsecond)
+		}
+	}
 	w.Write(r.Response(radius.CodeAccountingResponse))
 }
 
